@@ -287,7 +287,7 @@ $BODY
 //@   after "while let Some(p) = parts_iter.next() {" <<<
                             proof { lemma_count_ph_drop_first_all(); assert(count_ph(parts_iter.rest@) >= 0); }
 //@   >>>
-//@   mutant fmt_no_arity_check "if placeholders > elems.len() {" => "if false && placeholders > elems.len() {" expect format_list_arm
+//@   mutant fmt_no_arity_check "if placeholders != elems.len() {" => "if false && placeholders > elems.len() {" expect format_list_arm
 //@ end
 
 
